@@ -17,13 +17,17 @@ def c05(tier):
 
     def steps_check(verdict, sessions, wd):
         vcov.update(vmt.run(verdict, wd, [('cont', 30 if q else 800)], vlib.seed()))
+        # capture = copy of stack[1..sp] and the registers, throw = their restoration with the value in acc
+        # (spec/Machine.tla): every instruction of continuation sessions against the model's registers
+        import mach
+        vcov.update(mach.run(verdict, wd, [('cont', 30 if q else 1500)], vlib.seed()))
 
     def relevant(mm, sess, runs):
         return mm['kind'] in ('conformance', 'corpus')
 
     return props.cek_property(
         'C05', tier, plan, relevant, extra_check=steps_check, extra_cov=lambda sessions, ends: {'instruction_traces': vcov},
-        rule='sessions of 1-3 blocks drawn from 17 parametrised continuation templates (harness/src/gen_cont.rs): escape from '
+        rule='sessions of 1-3 blocks drawn from 19 parametrised continuation templates (harness/src/gen_cont.rs): escape from '
         'for-each/map/deep recursion, re-entry from later top-level forms with counters, operand positions, '
         'continuations stored in globals/vectors/pairs/closures, nested extents, generators, coroutines, re-entry into '
         'a define; each run in a fresh VM and after unrelated definitions')
